@@ -117,6 +117,8 @@ pub struct KnownFinding {
     pub sig: String,
     pub status: String,
     pub what: String,
+    /// calibrated on the unchanged tree (quick tier, default seed): cases with at least one occurrence per 100 000 cases
+    pub per_100k: Option<f64>,
 }
 
 pub fn load_known_findings(path: &str) -> Vec<KnownFinding> {
@@ -135,6 +137,7 @@ pub fn load_known_findings(path: &str) -> Vec<KnownFinding> {
                     sig: f["sig"].as_str().unwrap_or("").to_string(),
                     status: f["status"].as_str().unwrap_or("known").to_string(),
                     what: f["what"].as_str().unwrap_or("").to_string(),
+                    per_100k: f.get("per_100k").and_then(|x| x.as_f64()),
                 })
                 .collect()
         })
@@ -407,6 +410,7 @@ pub fn check_main(scn: &dyn Scenario, prop_arg: &str, opts: &CheckOptions) -> i3
     let mut violations: Vec<(u64, u64, IssueRec)> = vec![];
     let mut known_hits: BTreeMap<String, (u64, String)> = BTreeMap::new();
     let mut known_examples: BTreeMap<String, Value> = BTreeMap::new();
+    let mut known_cases: BTreeMap<String, (BTreeSet<u64>, Option<f64>, u64)> = BTreeMap::new();
     let mut other_props: BTreeMap<String, u64> = BTreeMap::new();
     for (i, v) in &records {
         merge_counters(&mut counters, &v["num"]);
@@ -449,6 +453,8 @@ pub fn check_main(scn: &dyn Scenario, prop_arg: &str, opts: &CheckOptions) -> i3
                     let key = format!("{}|{}|{}", k.property, k.rule, k.sig);
                     let e = known_hits.entry(key.clone()).or_insert((0, k.what.clone()));
                     e.0 += 1;
+                    let kc = known_cases.entry(key.clone()).or_insert_with(|| (BTreeSet::new(), k.per_100k, v["seed"].as_u64().unwrap_or(0)));
+                    kc.0.insert(*i);
                     known_examples.entry(key).or_insert_with(|| json!({"case_index": i, "case_seed": v["seed"], "rule": rec.rule, "sig": rec.sig, "message": rec.msg.chars().take(300).collect::<String>()}));
                 }
                 None => violations.push((*i, v["seed"].as_u64().unwrap_or(0), rec)),
@@ -466,6 +472,26 @@ pub fn check_main(scn: &dyn Scenario, prop_arg: &str, opts: &CheckOptions) -> i3
         }
     }
 
+    // ---- a known finding hides every other cause of the same rule on the same input domain. What it cannot hide is a
+    // change of its frequency: each entry carries the share of cases it hits on the unchanged tree (calibrated, quick tier);
+    // far more hits than that (4x + 15 cases) are reported as a violation of their own
+    let mut surges: Vec<(String, u64, u64, u64)> = vec![];
+    if opts.tier == Tier::Quick {
+        for (key, (cases, per_100k, first_seed)) in &known_cases {
+            if let Some(rate) = per_100k {
+                let bound = (4.0 * rate * records.len() as f64 / 100_000.0).ceil() as u64 + 15;
+                if cases.len() as u64 > bound {
+                    surges.push((key.clone(), cases.len() as u64, bound, *first_seed));
+                }
+            }
+        }
+    }
+    for (key, n, bound, seed) in &surges {
+        let idx = known_cases[key].0.iter().next().copied().unwrap_or(0);
+        let parts: Vec<&str> = key.split('|').collect();
+        violations.push((idx, *seed, IssueRec { prop: prop.to_string(), rule: "known-finding-surge".into(), sig: key.clone(), msg: format!("the known finding rule={} sig={} hits {n} cases of {}, on the unchanged tree it hits about {:.0} (alarm bound {bound}): something else breaks the same rule on the same input domain", parts.get(1).unwrap_or(&""), parts.get(2).unwrap_or(&""), records.len(), known_cases[key].1.unwrap_or(0.0) * records.len() as f64 / 100_000.0) }));
+    }
+
     // ---- report violations (minimised replay files)
     let mut reported: BTreeSet<String> = BTreeSet::new();
     let mut replay_files: Vec<String> = vec![];
@@ -475,7 +501,13 @@ pub fn check_main(scn: &dyn Scenario, prop_arg: &str, opts: &CheckOptions) -> i3
             continue;
         }
         let doc = scn.materialise(*seed, opts.tier);
-        let mut doc = if iss.rule == "no-return" {
+        let mut doc = if iss.rule == "known-finding-surge" {
+            // the replay file is one of the cases which hit the known finding (it reproduces the underlying rule)
+            let mut doc = doc;
+            let underlying = iss.sig.split('|').nth(1).unwrap_or("").to_string();
+            doc["expect"] = json!({ "property": prop, "rule": underlying, "message": iss.msg, "log": "", "reproduced_after_minimisation": Value::Null });
+            doc
+        } else if iss.rule == "no-return" {
             // replaying would not return either: the replay command runs under the same watchdog
             let mut doc = doc;
             doc["expect"] = json!({ "property": prop, "rule": iss.rule, "message": iss.msg, "log": "hung", "reproduced_after_minimisation": Value::Null });
@@ -539,7 +571,7 @@ pub fn check_main(scn: &dyn Scenario, prop_arg: &str, opts: &CheckOptions) -> i3
             "violations_by_rule": by_rule,
             "violation_examples": examples,
             "violations_by_rule_and_signature": by_rule_sig,
-            "known_findings_hit": known_hits.iter().map(|(k, v)| json!({"finding": k, "occurrences": v.0, "example": known_examples.get(k)})).collect::<Vec<_>>(),
+            "known_findings_hit": known_hits.iter().map(|(k, v)| json!({"finding": k, "occurrences": v.0, "cases": known_cases.get(k).map(|c| c.0.len()), "calibrated_cases_per_100k": known_cases.get(k).and_then(|c| c.1), "example": known_examples.get(k)})).collect::<Vec<_>>(),
             "issues_of_other_properties_seen": other_props,
             "components": { "real": meta.components_real, "stub": meta.components_stub },
             "replay_files": replay_files,
